@@ -277,6 +277,7 @@ def _worker_inner(cid, tier, seed, widx, rnd, excluded, examples):
 
     strat = mod.strategy(tier)
     shrink_budget = getattr(mod, "SHRINK_BUDGET", 400)
+    shrink_seconds = float(os.environ.get("VERIF_SHRINK_SECONDS", "45"))
 
     @hypothesis.seed(derive_seed(seed, cid, widx, rnd))
     @settings(
@@ -293,8 +294,10 @@ def _worker_inner(cid, tier, seed, widx, rnd, excluded, examples):
     def prop(case):
         if last_fail:
             # bounded shrinking: compile-bound checks cannot afford hundreds of shrink attempts
+            # (and none can afford minutes of shrinking on cases with thousands of elements: the time limit only decides
+            # how small the reported case gets, never the verdict)
             last_fail["shrinks"] = last_fail.get("shrinks", 0) + 1
-            if last_fail["shrinks"] > shrink_budget:
+            if last_fail["shrinks"] > shrink_budget or time.time() - last_fail["t0"] > shrink_seconds:
                 return
         _crash_note(widx, case)
         out, known, jcase = judge(mod, case, open_findings)
@@ -307,6 +310,7 @@ def _worker_inner(cid, tier, seed, widx, rnd, excluded, examples):
             return
         stats.evals += 1
         size = len(canon(jcase))
+        last_fail.setdefault("t0", time.time())
         if "case" not in last_fail or size <= last_fail["size"]:
             last_fail["case"] = jcase
             last_fail["out"] = out
